@@ -1,0 +1,6 @@
+//go:build !verif
+
+package proto
+
+func verifCheckRows(int) error   { return nil }
+func verifCheckStrLen(int) error { return nil }
